@@ -153,6 +153,88 @@ def gen_valid(rng, kind, maxops, style=None):
     return kind + '|' + ' '.join(toks)
 
 
+def gen_access(rng, kind, maxops):
+    """explicit dump mode: the observations ARE the operation stream.  Indexed operations (get / set /
+    pop_at / push_at) mostly at indices adjacent to the previous indexed operation (j-1, j, j+1, j+2),
+    interleaved with push/pop/mem/rem; most steps are not dumped at all, some are dumped by gets at
+    descending indices ('^'), by iteration only ('~') or fully ('!'); a full dump closes the case.
+    State that depends on the access history (a cached cursor, a remembered node) is therefore not
+    re-seeded by a 0..n-1 sweep between two operations."""
+    vals = [pick_val(rng, 'mixed') for _ in range(rng.choice([0, 3, 5, 8, 12, 20]))]
+    toks = ['N' + ','.join(map(str, vals))]
+    sh = Shadow(kind, vals)
+    last = None
+    nops = rng.randrange(2, maxops + 1)
+    tries = 0
+    while len(toks) <= nops and tries < 20 * maxops:
+        tries += 1
+        n = len(sh.l)
+        r = rng.random()
+        if last is not None and rng.random() < .7:
+            k = last + rng.choice([-1, 0, 1, 1, 1, 2])
+            if rng.random() < .25 and n:
+                k -= n                     # the same position given as a negative key
+        else:
+            k = rng.randrange(-n, n + 1) if n else 0
+        tok = None
+        if r < .30:
+            if sh.idx(k) is None: continue
+            tok = 'g%d' % k; last = sh.idx(k)
+        elif r < .45:
+            i = sh.idx(k)
+            if i is None: continue
+            v = pick_val(rng, 'mixed'); tok = 's%d,%d' % (k, v); sh.l[i] = v; last = i
+        elif r < .65:
+            i = sh.push_at_ok(k)
+            if i is None: continue
+            v = pick_val(rng, 'mixed'); tok = 'i%d,%d' % (k, v); sh.l.insert(i, v); last = i
+        elif r < .75:
+            i = sh.idx(k)
+            if i is None: continue
+            tok = 'd%d' % k; del sh.l[i]; last = i
+        elif r < .83:
+            v = pick_val(rng, 'mixed'); tok = 'u%d' % v; sh.l.append(v)
+        elif r < .87:
+            if not n: continue
+            tok = 'o'; sh.l.pop()
+        elif r < .92:
+            tok = 'm%d' % (rng.choice(sh.l) if sh.l and rng.random() < .6 else pick_val(rng, 'mixed'))
+        elif r < .96:
+            if not n: continue
+            v = rng.choice(sh.l); tok = 'r%d' % v; sh.l.remove(v)
+        else:
+            tok = 'y'
+        d = rng.random()
+        toks.append(tok + ('' if d < .72 else '^' if d < .82 else '~' if d < .92 else '!'))
+    return kind + '*|' + ' '.join(toks)
+
+
+ELEM_SIZES = [1, 2, 4, 6, 12, 20]
+
+
+def gen_elem(rng, kind, size, maxops):
+    """Array / List of a plain struct element type of `size` bytes (values 0..250, every byte of the
+    element is a function of the value, so a partially moved element is visible): a valid sequence
+    with push_at away from the end, sort and set — the paths that move elements with swap / assign"""
+    style = rng.choice(['sorty', 'edges', 'mixed', 'dups'])
+    case = gen_valid(rng, kind, maxops, style)
+    pre, toks = split(case)
+    out = []
+    for t in toks:
+        # squeeze every value into 0..250 (keys stay as they are)
+        if t[0] in 'uamr':
+            t = t[0] + str(abs(int(t[1:])) % 251)
+        elif t[0] in 'is':
+            k, v = t[1:].split(',')
+            t = '%s%s,%d' % (t[0], k, abs(int(v)) % 251)
+        elif t[0] in 'Ncn':
+            h, _, vs = t.partition(':') if t[0] in 'cn' else (t[0], '', t[1:])
+            vs = ','.join(str(abs(int(v)) % 251) for v in vs.split(',') if v)
+            t = (h + ':' + vs) if t[0] in 'cn' else 'N' + vs
+        out.append(t)
+    return '%se%d|%s' % (kind, size, ' '.join(out))
+
+
 def gen_invalid(rng, kind, maxops):
     """valid prefix, then operations outside the contract interleaved with valid ones
     (compared with the MODEL only: the oracle stops at the first out-of-range operation)"""
@@ -178,6 +260,7 @@ def gen_invalid(rng, kind, maxops):
 
 
 ALPHA16 = ['u0', 'u1', 'o', 'i0,2', 'i-1,2', 'i1,1', 'd0', 'd-1', 's0,2', 'r1', 'r0', 't', 'z1', 'z2', 'cL:1,0', 'y']
+ALPHA_ACCESS = ['u0', 'o', 'i0,2', 'i1,1', 'i-1,2', 'g0', 'g1', 'g2', 'g-1', 's1,2', 'd0', 'd1']
 ALPHA7 = {'A': ['u0', 'u1', 'o', 'i0,2', 'i-1,2', 'd0', 't'],
           'L': ['u0', 'u1', 'o', 'i0,2', 'i-1,2', 'd0', 'r1'],
           'T': ['u0', 'u1', 'o', 'i0,2', 'i-1,2', 'd0', 't']}
@@ -209,6 +292,29 @@ def parallel(run, jobs=4):
 
 
 # ---------------------------------------------------------------- transcript handling
+def list_cursor_flags(ctx):
+    """white-box: if struct List carries a cached position (a pointer field X next to an integer field
+    X_index / X_idx / X_pos) tell the harness its names, so that it can check the cache against the links"""
+    import re
+    try:
+        src = open(os.path.join(vlib.REPO, 'src', 'List.c')).read()
+    except OSError:
+        return []
+    m = re.search(r'struct\s+List\s*\{(.*?)\}\s*;', src, re.S)
+    if not m:
+        return []
+    ptrs = re.findall(r'\bvar\s+(\w+)\s*;', m.group(1))
+    ints = re.findall(r'\b(?:size_t|int64_t|uint64_t|int|long)\s+(\w+)\s*;', m.group(1))
+    for x in ptrs:
+        if x in ('type', 'head', 'tail'):
+            continue
+        for suf in ('_index', '_idx', '_pos', '_i'):
+            if x + suf in ints:
+                ctx.notes.append('struct List has a cached position (%s, %s): checked against the links after every dump' % (x, x + suf))
+                return ['-DLIST_CURSOR_PTR=' + x, '-DLIST_CURSOR_IDX=' + x + suf]
+    return []
+
+
 def steps(line):
     return line.split(' | ')
 
@@ -224,13 +330,33 @@ def oracle(case, impl, spec):
             return 'implementation transcript stops after %d steps (crash/timeout), specification has %d' % (len(pi), len(ps))
         a = pi[n].split(';')
         b = b.split(';')
+        if len(a) < 2 or a[0] != b[0]:
+            return 'step %d: outcome %s, the abstract sequence gives %s' % (n, a[0] if len(a) > 1 else pi[n], b[0])
+        if a[1] != b[1]:
+            return 'step %d: len %s, the abstract sequence has %s elements' % (n, a[1], b[1])
+        if len(b) == 2:                       # step without a dump (explicit dump mode)
+            if len(a) != 2:
+                return 'step %d: %s' % (n, pi[n])
+            continue
+        if b[2] == '^':                       # indexed gets only, taken at descending indices
+            if len(a) != 5 or a[2] != '^':
+                return 'step %d: %s' % (n, pi[n])
+            if a[3] != b[3]:
+                return 'step %d: get(len-1..0) = [%s] (listed by index), the abstract sequence is [%s]' % (n, a[3], b[3])
+            if a[4] != '=':
+                return 'step %d: get(-len..-1) = [%s] is not the sequence [%s] reversed' % (n, a[4], b[3])
+            continue
+        if b[2] == '~':                       # iteration and mem only
+            if len(a) != 5 or a[2] != '~':
+                return 'step %d: %s' % (n, pi[n])
+            if a[3] != b[3]:
+                return 'step %d: iteration yields [%s], the abstract sequence is [%s]' % (n, a[3], b[3])
+            if a[4] != b[4]:
+                return 'step %d: mem of probes 0,1,2,7 = %s, the abstract sequence gives %s' % (n, a[4], b[4])
+            continue
         if len(a) != 7:
             return 'step %d: %s' % (n, pi[n])
         out, ln, g, ng, it, mm, w = a
-        if out != b[0]:
-            return 'step %d: outcome %s, the abstract sequence gives %s' % (n, out, b[0])
-        if ln != b[1]:
-            return 'step %d: len %s, the abstract sequence has %s elements' % (n, ln, b[1])
         if g != b[2]:
             return 'step %d: get(0..len-1) = [%s], the abstract sequence is [%s]' % (n, g, b[2])
         if ng != '=':
@@ -262,7 +388,11 @@ def nontrivial(case, impl):
         ws = [s[6] for s in st if len(s) == 7]
         if any(x != y for x, y in zip(ws, ws[1:])) and len(set(ws)) > 2:
             return True
-    toks = case[2:].split(' ')
+    toks = case[case.index('|') + 1:].split(' ')
+    if '*' in case[:case.index('|')]:
+        # explicit dump mode: counts when an indexed access follows another operation at an adjacent index
+        idx = [int(t[1:].rstrip('!^~').split(',')[0]) if t and t[0] in 'idsg' else None for t in toks]
+        return any(x is not None and y is not None and abs(x - y) <= 1 for x, y in zip(idx, idx[1:]))
     for n, t in enumerate(toks):
         if t and t[0] in 'idsg' and n < len(st) and len(st[n]) == 7 and st[n][1] not in ('0', '1'):
             k = t[1:].split(',')[0]
@@ -274,7 +404,8 @@ def nontrivial(case, impl):
 
 
 def split(case):
-    return case[:2], [t for t in case[2:].split(' ') if t]
+    b = case.index('|') + 1
+    return case[:b], [t for t in case[b:].split(' ') if t]
 
 
 def join(pre, toks):
@@ -294,6 +425,12 @@ CORPUS = [
     'A|z5 u1 u2 z1 z0 u3',
     'A|N5,5,1,5,1 t', 'T|N2,1,2,1,0,0 t', 'A|N3,2,1 t', 'T|N1,2,3 t',
     'L|N1,2,3,4,5,6,7 g3 g4 g-3 g-4 d3 d3 i3,0 i4,0',     # both walks of List_At around nitems/2
+    # access-pattern dependent state (seeded C04-r5-2: cursor cache in List_At not reset by an insertion)
+    'L*|N0,1,2,3,4,5,6,7 i3,9 g4 g2 i1,8 g3 s4,7 g5^', 'L*|N0,1,2,3,4,5 g3 i0,9 g4 i-2,8 g-1 d2 g2~',
+    'A*|N0,1,2,3,4,5,6,7 i3,9 g4 g2 i1,8 g3 s4,7 g5^', 'T*|N0,1,2,3,4,5,6,7 i3,9 g4 g2 i1,8 g3 s4,7 g5^',
+    # struct elements whose size is not a multiple of 8 moved by swap (seeded C04-r5-1: memswap tail)
+    'Ae12|N50,10,40,20,30 i0,5 i2,60 t', 'Ae6|N50,10,40,20,30 i0,5 i2,60 t', 'Ae20|N3,2,1 i1,9 t',
+    'Ae1|N250,3,7 i1,9 t', 'Ae2|N250,3,7 i1,9 t', 'Ae4|N250,3,7 i1,9 t', 'Le12|N50,10,40 i1,5 s-1,7 z5',
 ]
 # D21 d93ad78: a wrong-typed element (String) is outside the model; literal expected transcripts
 CORPUS_LITERAL = [
@@ -323,7 +460,7 @@ def run(ctx):
         'realloc keeps the common prefix; memmove/memcpy move whole element records']
     ctx.coq()
     drv = ctx.build_driver('Seq')
-    h = ctx.build_harness('seq_wb.c', whitebox='Array')
+    h = ctx.build_harness('seq_wb.c', whitebox=['Array', 'List'], extra=list_cursor_flags(ctx))
     run_impl = parallel(lambda cs: ctx.run_lines(h, cs)[1])
     run_model = parallel(lambda cs: ctx.run_lines(drv, cs, args=['model'])[1], 2)
     run_spec = parallel(lambda cs: ctx.run_lines(drv, cs, args=['spec'])[1], 2)
@@ -370,6 +507,18 @@ def run(ctx):
         cases = [gen_valid(ctx.rng, kind, maxops if i % 4 else 14) for i in range(per)]
         for i in range(0, per, 1000):
             d.feed(cases[i:i + 1000])
+    # the observations as part of the operation stream (no sweep between operations)
+    nacc = 1500 if quick else 20000
+    for kind in KINDS:
+        acc = [gen_access(ctx.rng, kind, 30 if i % 3 else 8) for i in range(nacc)]
+        for i in range(0, nacc, 1000):
+            d.feed(acc[i:i + 1000])
+    # struct element types of 1, 2, 4, 6, 12, 20 bytes in Array and List
+    nel = 120 if quick else 2500
+    for kind in 'AL':
+        el = [gen_elem(ctx.rng, kind, sz, 30) for sz in ELEM_SIZES for _ in range(nel)]
+        for i in range(0, len(el), 1000):
+            d.feed(el[i:i + 1000])
     ninv = 400 if quick else 4000
     inv = [gen_invalid(ctx.rng, k, 12) for k in 'ALTS' for _ in range(ninv)]
     for i in range(0, len(inv), 1000):
@@ -382,11 +531,17 @@ def run(ctx):
             for ops in gen_exhaustive(ALPHA7[kind], 6):
                 if len(ops) > 4:
                     ex.append(kind + '|' + ' '.join(ops))
+        # access patterns, no dump between operations: every sequence of <= 5 (List) / <= 4 (Array, Tuple)
+        # operations from ALPHA_ACCESS on a container holding 0,1,2
+        for kind in KINDS:
+            for ops in gen_exhaustive(ALPHA_ACCESS, 5 if kind == 'L' else 4):
+                ex.append(kind + '*|N0,1,2 ' + ' '.join(ops))
         for i in range(0, len(ex), 8000):
             d.feed(ex[i:i + 8000])
         ctx.cov['exhaustive'] = ('bounded search (not a proof): per container every sequence of <= 4 operations from the '
                                  '16-operation alphabet %s and every sequence of 5 or 6 operations from the 7-operation alphabet '
-                                 '%s over the values 0,1,2: %d cases' % (ALPHA16, ALPHA7, len(ex)))
+                                 '%s over the values 0,1,2; and, without any dump between operations, every sequence of <= 5 (List) / <= 4 (Array, Tuple) '
+                                 'operations from %s on a container holding 0,1,2: %d cases' % (ALPHA16, ALPHA7, ALPHA_ACCESS, len(ex)))
 
     def extra(dd):
         for kind in KINDS:
